@@ -63,6 +63,12 @@ static __attribute__((noinline)) bool guarded_is_email(void *e, const char *s, s
     return false;
 }
 
+static string af_signature() {
+    string s = g_sim_af_fired ? "fired" : "not-fired";
+    for (int i = 0; i < g_sim_af_n && i < 4; i++) s += (i ? "," : ":") + std::to_string(g_sim_af_sizes[i]);
+    return s;
+}
+
 // ------------------------------------------------------------------ plans
 enum Kind { SET_RFC, SET_TLD, SET_ALLOW, SETUP, IS_EMAIL, ERRSTR, READ_RESULT, FREE_INIT,
             LOW_6531, LOW_UTF8DOM, NKINDS };
@@ -538,6 +544,7 @@ struct Outcome {
     // converter view
     int conv_calls = 0, conv_fired = 0, conv_has_last = 0, conv_last = 0;
     bool aborted = false, alloc_fired = false;
+    string af_sig;      // what an attached allocation fault met: fired or not, and the sizes the library asked for up to it
     string str() const {
         char b[256];
         if (aborted) return "ABORTED inside the library (abort/assert)";
@@ -579,7 +586,7 @@ struct Viol { string cls, detail; int op_index = -1; };
 
 struct Stats {
     uint64_t plans = 0, ops = 0, kind[NKINDS] = { 0 }, is_email_exec = 0, is_email_skipped = 0, refs = 0;
-    uint64_t fault_attached = 0, fault_fired = 0, fired_buf[3] = { 0 }, sf_attached = 0, sf_fired = 0, af_attached = 0, af_fired = 0, af_aborted = 0;
+    uint64_t fault_attached = 0, fault_fired = 0, fired_buf[3] = { 0 }, sf_attached = 0, sf_fired = 0, af_attached = 0, af_fired = 0, af_aborted = 0, af_not_comparable = 0;
     std::map<int, uint64_t> fired_code;
     uint64_t mode_switch[5][4] = { { 0 } };     // from (none=4) -> to, followed by an executed IS_EMAIL
     uint64_t setup_ok = 0, setup_invalid = 0, free_init = 0, errstr_checked = 0, errstr_after_other = 0;
@@ -669,6 +676,14 @@ struct Exec {
         g_sim_nreports = 0;
     }
 
+    // live caller objects are roots of the reachability rule: what an object holds is not a leak of some other object, even
+    // if the block was first allocated on behalf of that other one (a library-level free list recycles records)
+    vector<char> obj_alive;
+    void set_roots(int exclude) {
+        sim_ledger_roots_clear();
+        for (size_t i = 0; i < store.size(); i++) if ((int)i != exclude && i < obj_alive.size() && obj_alive[i]) sim_ledger_root_add(store[i], esz);
+    }
+
     void *new_obj_mem() {
         void *m = malloc(esz);              // harness allocation (tag NONE): ASan guards its bounds
         sim_fill(m, esz);
@@ -708,19 +723,20 @@ struct Exec {
         if (!guarded_is_email(e, ap, k.a.size(), k.mf, &ret)) {
             // the fresh object aborts under this fault: that is the reference outcome; the object is abandoned as it is
             g_sim_tag = SIM_TAG_NONE; g_sim_in_free = 0;
-            o.aborted = true; o.alloc_fired = g_sim_af_fired != 0;
+            o.aborted = true; o.alloc_fired = g_sim_af_fired != 0; if (k.mf) o.af_sig = af_signature();
             caller_done();
             sim_ledger_forget(SIM_TAG_REF); sim_ctx_forget(SIM_TAG_REF);
             drain_reports();
             free(e); ST.refs++;
             return o;
         }
-        capture(e, ret, o); o.alloc_fired = g_sim_af_fired != 0;
+        capture(e, ret, o); o.alloc_fired = g_sim_af_fired != 0; if (k.mf) o.af_sig = af_signature();
         g_sim_tag = SIM_TAG_NONE;
         caller_done();
         g_sim_tag = SIM_TAG_REF;
         g_sim_in_free = 1; shim_free(e); g_sim_in_free = 0;
         g_sim_tag = SIM_TAG_NONE;
+        set_roots(-1);
         if (sim_ledger_unreachable_live(SIM_TAG_REF) != 0) {
             viol("C13:eav_free-leaves-allocation", "fresh object: blocks still allocated after eav_free and not reachable from any library static");
             sim_ledger_retag(SIM_TAG_REF, 999);
@@ -772,15 +788,20 @@ struct Exec {
     // still be live unless it is (again) part of the current record; and the current record must be live memory
     void check_ledger_obj(int o, const char *when, const std::set<void *> &prev) {
         ST.ledger_checks++;
-        void *live[64]; int n = sim_ledger_live_for_tag(o, live, 64);
         std::set<void *> want = result_blocks(o);
-        std::set<void *> have(live, live + std::min(n, 64));
         char b[160];
-        for (void *p : prev) if (have.count(p) && !want.count(p)) {
+        // a block of the previous record that is still allocated must be either part of the current record again or held
+        // by the library itself (a free list behind a static or thread-local): lost means allocated and reachable from neither
+        set_roots(-1);
+        void *lost[64]; int n = sim_ledger_unreachable_list(-2, lost, 64);
+        std::set<void *> unreachable(lost, lost + std::min(n, 64));
+        for (void *p : prev) if (unreachable.count(p) && !want.count(p)) {
             snprintf(b, sizeof b, "%s: a block of the previous result record is still allocated and no longer reachable from the object", when);
             viol("C13:previous-allocation-not-released", b); break;
         }
-        for (void *w : want) if (!have.count(w)) { snprintf(b, sizeof b, "%s: result record points to a block that is not live", when); viol("C13:result-points-to-released-block", b); break; }
+        // the current record must not be memory the library has released (storage the ledger does not know - a static or
+        // thread-local record - is the sanitizer's business)
+        for (void *w : want) if (sim_ledger_state(w) == 2) { snprintf(b, sizeof b, "%s: result record points to a block that has been released", when); viol("C13:result-points-to-released-block", b); break; }
     }
 
     void run() {
@@ -793,7 +814,7 @@ struct Exec {
         rec(string("PLAN prop=") + plan.prop + " cfg=" + plan.cfg + " nobj=" + std::to_string(plan.nobj) + " ops=" + std::to_string(plan.ops.size()) + " backend=" + shim_backend(),
             string("PLAN nobj=") + std::to_string(plan.nobj) + " ops=" + std::to_string(plan.ops.size()));
         for (int o = 0; o < plan.nobj; o++) {
-            void *e = new_obj_mem(); store.push_back(e);
+            void *e = new_obj_mem(); store.push_back(e); obj_alive.push_back(1);
             g_sim_tag = o; shim_init(e); g_sim_tag = SIM_TAG_NONE;
             if (o == 0) { def_rfc = shim_get_rfc(e); def_tld = shim_get_tld_check(e); def_allow = shim_get_allow(e); }
             else if (shim_get_rfc(e) != def_rfc || shim_get_tld_check(e) != def_tld || shim_get_allow(e) != def_allow)
@@ -861,11 +882,13 @@ struct Exec {
         for (int o = 0; o < plan.nobj; o++) {
             g_sim_tag = o; g_sim_in_free = 1; shim_free(store[o]); g_sim_in_free = 0; g_sim_tag = SIM_TAG_NONE;
             drain_reports();
+            obj_alive[o] = 0; set_roots(-1);
             if (viols.empty()) {
                 if (sim_ledger_unreachable_live(o) != 0) viol("C13:eav_free-leaves-allocation", "blocks allocated for the object are still allocated after the closing eav_free and not reachable from any library static");
                 if (sim_ctx_live_for_tag(o) != 0) viol("C18:context-not-released-by-eav_free", "resolver context still live after the closing eav_free");
             }
         }
+        set_roots(-1);
         if (viols.empty() && sim_ledger_unreachable_live(-2) != 0) viol("C13:allocation-never-released", "library blocks still allocated at the end of the history and not reachable from any library static");
         if (viols.empty() && g_sim_ctx.live != 0) viol("C18:context-never-released", "resolver contexts still live at the end of the history");
         ST.ctx_created += g_sim_ctx.created; ST.ctx_destroyed += g_sim_ctx.destroyed;
@@ -957,14 +980,15 @@ struct Exec {
             int ret = 0; Outcome o;
             if (!guarded_is_email(e, ap, op.a.size(), op.mf, &ret)) {
                 g_sim_tag = SIM_TAG_NONE; g_sim_in_free = 0;
-                o.aborted = true; o.alloc_fired = g_sim_af_fired != 0;
+                o.aborted = true; o.alloc_fired = g_sim_af_fired != 0; if (op.mf) o.af_sig = af_signature();
                 caller_done();
                 ST.is_email_exec++; ST.af_aborted++; if (o.alloc_fired) ST.af_fired++;
                 rec(pre + " mode=" + std::to_string(m.confirmed) + " mf=" + std::to_string(op.mf) + " a=<" + op.a + "> " + o.str(), pre + " mode=" + std::to_string(m.confirmed) + " " + o.neutral());
                 auto it0 = ref_pre.find(k);
                 if (it0 == ref_pre.end()) { viol("harness:missing-reference", "dry model pass and execution disagree"); break; }
                 ST.outcome_cmp++; nontrivial_cmp = true;
-                if (!it0->second.aborted) viol(o.alloc_fired ? "C13:outcome-differs-from-fresh-object" : "C13:abort-inside-library", "eav_is_email('" + op.a + "') aborts on the reused object, a fresh object with the same settings" + (op.mf ? " under the same allocation failure" : "") + " does not: fresh {" + it0->second.str() + "}");
+                if (it0->second.af_sig != o.af_sig) ST.af_not_comparable++;     // the fault met other allocations on the fresh object (see below)
+                else if (!it0->second.aborted) viol(o.alloc_fired ? "C13:outcome-differs-from-fresh-object" : "C13:abort-inside-library", "eav_is_email('" + op.a + "') aborts on the reused object, a fresh object with the same settings" + (op.mf ? " under the same allocation failure" : "") + " does not: fresh {" + it0->second.str() + "}");
                 // the object is abandoned as the abort left it
                 sim_ledger_forget(op.o); sim_ctx_forget(op.o);
                 sim_fill(e, esz);
@@ -972,7 +996,7 @@ struct Exec {
                 m = ObjModel(); m.rfc = def_rfc; m.tld = def_tld; m.allow = def_allow;
                 break;
             }
-            capture(e, ret, o); o.alloc_fired = g_sim_af_fired != 0;
+            capture(e, ret, o); o.alloc_fired = g_sim_af_fired != 0; if (op.mf) o.af_sig = af_signature();
             if (o.alloc_fired) ST.af_fired++;
             g_sim_tag = SIM_TAG_NONE;
             caller_done();
@@ -986,7 +1010,10 @@ struct Exec {
             if (it == ref_pre.end()) { viol("harness:missing-reference", "dry model pass and execution disagree"); break; }
             ST.outcome_cmp++; nontrivial_cmp = true;
             string why;
-            if (!o.same(it->second, why)) {
+            // an attached allocation failure is the same event on both objects only if it met the same allocations: a record
+            // served from a library-level free list needs none, and then the k-th allocation is a different one
+            if (op.mf && o.af_sig != it->second.af_sig) ST.af_not_comparable++;
+            else if (!o.same(it->second, why)) {
                 viol("C13:outcome-differs-from-fresh-object", "eav_is_email('" + op.a + "') on the reused object differs from a fresh object with the same settings in " + why + ": reused {" + o.str() + "} fresh {" + it->second.str() + "}");
             }
             // (whether the converter was actually consulted may legitimately differ between the reused and the fresh object:
@@ -999,6 +1026,7 @@ struct Exec {
                 // depend on how the library reacted), through the ordinary eav_free so that nothing may be left behind
                 g_sim_tag = op.o; g_sim_in_free = 1; shim_free(e); g_sim_in_free = 0; g_sim_tag = SIM_TAG_NONE;
                 drain_reports();
+                set_roots(op.o);
                 if (sim_ledger_unreachable_live(op.o) != 0) viol("C13:eav_free-leaves-allocation", "after a failed allocation inside eav_is_email, eav_free leaves blocks of the object allocated");
                 sim_ledger_retag(op.o, 999);
                 if (sim_ctx_live_for_tag(op.o) != 0) { viol("C18:context-not-released-by-eav_free", "resolver context still live after eav_free"); sim_ctx_retag(op.o, 999); }
@@ -1033,6 +1061,7 @@ struct Exec {
             any_state_change = true;
             g_sim_tag = op.o; g_sim_in_free = 1; shim_free(e); g_sim_in_free = 0; g_sim_tag = SIM_TAG_NONE;
             drain_reports();
+            set_roots(op.o);
             if (sim_ledger_unreachable_live(op.o) != 0) { viol("C13:eav_free-leaves-allocation", "blocks allocated for the object are still allocated after eav_free and not reachable from any library static"); }
             sim_ledger_retag(op.o, 999);
             if (sim_ctx_live_for_tag(op.o) != 0) { viol("C18:context-not-released-by-eav_free", "resolver context still live after eav_free"); sim_ctx_retag(op.o, 999); }
@@ -1066,9 +1095,10 @@ struct Exec {
             }
             // exactly the record (and its strings) may be live
             {
+                set_roots(-1);
                 int n = sim_ledger_unreachable_live(101);
                 int want = r.present ? 1 + (r.has_extra ? (r.lpart ? 1 : 0) + (r.domain ? 1 : 0) : 0) : 0;
-                if (n != want) { snprintf(b, sizeof b, "is_6531_email left %d live blocks, result record accounts for %d", n, want); viol("C19:leak-on-conversion-path", b); sim_ledger_retag(101, 999); }
+                if (n > want) { snprintf(b, sizeof b, "is_6531_email left %d live blocks, result record accounts for %d", n, want); viol("C19:leak-on-conversion-path", b); sim_ledger_retag(101, 999); }
             }
             shim_result_free(rp);
             g_sim_tag = SIM_TAG_NONE;
@@ -1101,6 +1131,7 @@ struct Exec {
                     if (it->second.rc != rc) { snprintf(b, sizeof b, "is_utf8_domain('%s') = %d but eav_is_email('a@%s') records rc %d", op.a.c_str(), rc, op.a.c_str(), it->second.rc); viol("C19:low-level-result-differs-from-eav_is_email", b); }
                 }
             }
+            set_roots(-1);
             if (sim_ledger_unreachable_live(101) != 0) { viol("C19:leak-on-conversion-path", "is_utf8_domain left a live block (converter output not released)"); }
             sim_ledger_retag(101, 999);
         } break;
@@ -1165,7 +1196,7 @@ static sj::Value stats_json() {
     j.set("containment_checks", ST.contain_checks); j.set("ledger_checks", ST.ledger_checks);
     j.set("low_level_calls", ST.low_exec);
     j.set("idn_fault_attached", ST.fault_attached); j.set("idn_fault_fired", ST.fault_fired);
-    j.set("alloc_fault_attached", ST.af_attached); j.set("alloc_fault_fired", ST.af_fired); j.set("calls_aborted_inside_library", ST.af_aborted);
+    j.set("alloc_fault_attached", ST.af_attached); j.set("alloc_fault_fired", ST.af_fired); j.set("calls_aborted_inside_library", ST.af_aborted); j.set("alloc_fault_not_comparable_with_fresh_object", ST.af_not_comparable);
     sj::Value fb = sj::Value::object(); fb.set("A_output_untouched", ST.fired_buf[0]); fb.set("B_buffer_produced", ST.fired_buf[1]); fb.set("C_converted_then_failed", ST.fired_buf[2]);
     j.set("idn_fault_fired_by_buffer_mode", fb);
     sj::Value fc = sj::Value::object(); for (auto &kv : ST.fired_code) fc.set(std::to_string(kv.first), kv.second);
